@@ -381,7 +381,9 @@ def run(ctx):
         r.violate("set_text|guarded", "Comment::set_text no longer rejects texts for which contains_comment_closing_sequence(text) holds", "src/rewritable_units/tokens/comment.rs")
 
     # ------------------------------------------------------------------ R08.6
-    r = ctx.rule("R08.6", "unmappable characters and atomicity: validated setters encode with *_without_replacements, and every field write is dominated by the Ok edge of validation (a rejected call leaves the token unchanged)", "E-MIR dominance", floor=3)
+    r = ctx.rule("R08.6", "unmappable characters and atomicity: validated setters encode with *_without_replacements, and every field write is dominated by the Ok edge of validation (a rejected call leaves the token unchanged); inserted content is only ever encoded in an ASCII-compatible encoding (constructor discipline of AsciiCompatibleEncoding, shared with C13 R13.1)", "E-MIR dominance", floor=3)
+    from .c13 import clause_ascii_compatible_ctor
+    clause_ascii_compatible_ctor(r, mir)
     for nm, enc_in, writes in (("Comment::set_text", "Comment::set_text", [("Comment", "text")]),
                               ("Element::set_tag_name", "Element::tag_name_bytes_from_str", [("Element", "modified_end_tag_name")]),
                               ("Attributes::set_attribute", "Attribute::name_from_string", [])):
